@@ -268,12 +268,12 @@ Qed.
 
 (* c10-clause2 on every MAXIMAL schedule: the monitor never answers "a child failed while Running
    and Run() never returned" *)
-Theorem c10_clause2_link P ls s :
+Lemma c10_base_not_2 P ls s :
   fix_c09 P = true -> fix_lc P = true -> good_pool P -> good_children P ->
   Forall (good_label P) ls -> run (step P) init ls = Some s -> ~ prog P s ->
-  C10_holdsb P (obs_trace obs ls) <> 2%N.
+  C10_base P (obs_trace obs ls) <> 2%N.
 Proof.
-  intros Hf Hlc Hp Hg Hl Hrun Hstuck. unfold C10_holdsb.
+  intros Hf Hlc Hp Hg Hl Hrun Hstuck. unfold C10_base.
   destruct (split_first is_fail_exit (obs_trace obs ls)) as [pre hit] eqn:Es.
   destruct hit as [[e post]|].
   - destruct (split_first_some _ _ _ _ _ Es) as [Htr He].
@@ -290,6 +290,16 @@ Proof.
       destruct e; cbn in He; try discriminate He. cbn in Hret. discriminate Hret.
   - destruct (run_result (obs_trace obs ls)) as [r|]; [|discriminate].
     destruct (rc_failed r); discriminate.
+Qed.
+
+Theorem c10_clause2_link P ls s :
+  fix_c09 P = true -> fix_lc P = true -> good_pool P -> good_children P ->
+  Forall (good_label P) ls -> run (step P) init ls = Some s -> ~ prog P s ->
+  C10_holdsb P (obs_trace obs ls) <> 2%N.
+Proof.
+  intros Hf Hlc Hp Hg Hl Hrun Hstuck Hv.
+  apply (c10_base_not_2 P ls s Hf Hlc Hp Hg Hl Hrun Hstuck).
+  apply c10_holdsb_base; [discriminate|discriminate|exact Hv].
 Qed.
 
 (* ------------------------------------------------------------------ c11-clause30 *)
